@@ -66,6 +66,7 @@ class Ctx:
         self.extra: Dict[str, Any] = {}
         self.exhaustive = False
         self.not_decided: List[str] = []
+        self.analysis_errors: List[str] = []
 
     # -- rule registration ---------------------------------------------------
     def rule(self, rule_id: str, text: str, minimum: int = 1) -> None:
@@ -86,13 +87,21 @@ class Ctx:
     def info(self, msg: str) -> None:
         self.infos.append(msg)
 
+    def section(self, name: str, fn, *args) -> None:
+        """Run one rule group; an AnalysisError inside it is recorded (exit 2 unless another
+        rule group reports a VIOLATION) instead of hiding what the other groups find."""
+        try:
+            fn(*args)
+        except AnalysisError as e:
+            self.analysis_errors.append(f"{name}: {e}")
+
     def count(self, rule: str) -> int:
         return sum(1 for o in self.obligations if o.rule == rule)
 
     def check_minimums(self) -> None:
         for rule, mn in self.minimums.items():
             c = self.count(rule)
-            if c < mn:
+            if c < mn and not self.analysis_errors:
                 raise AnalysisError(
                     f"rule {self.prop}.{rule} matched {c} instance(s), fewer than the {mn} confirmed by hand "
                     f"on the reference tree: the code changed shape beyond what the rule recognises "
@@ -155,6 +164,8 @@ def finish(ctx: Ctx, t0: float, seed: int, selftest: Optional[dict] = None) -> i
             out.append(f"  self-test MISSED: {m}")
         for m in selftest.get("noisy", []):
             out.append(f"  self-test NOISY TWIN: {m}")
+    for e in ctx.analysis_errors:
+        out.append(f"ANALYSIS-ERROR property={ctx.prop}: {e}")
     total = len(ctx.obligations)
     held = sum(1 for o in ctx.obligations if o.ok)
     out.append(f"  {ctx.prop}: {held}/{total} obligations hold, {len(new)} violation(s), "
@@ -193,6 +204,7 @@ def finish(ctx: Ctx, t0: float, seed: int, selftest: Optional[dict] = None) -> i
                      for f in ctx.findings],
         "info": ctx.infos,
         "not_decided": ctx.not_decided,
+        "analysis_errors": ctx.analysis_errors,
         "checker_cmd": f"python -m serifscan check {ctx.prop} --tier {ctx.tier}",
         "trusted_base": ["CPython ast module", "serifscan engine (CFG, abstract evaluators, matchers)",
                          "assumption: package not monkey-patched; internals reached only through the names in the source"],
@@ -216,4 +228,6 @@ def finish(ctx: Ctx, t0: float, seed: int, selftest: Optional[dict] = None) -> i
     }
     with open(os.path.join(EVIDENCE_DIR, f"{ctx.prop}.json"), "w") as fh:
         json.dump(ev, fh, indent=1, default=str)
-    return 1 if new else 0
+    if new:
+        return 1
+    return 2 if ctx.analysis_errors else 0
